@@ -35,8 +35,10 @@ pub fn gen_input(rng: &mut Rng, nwords: usize) -> (Vec<u8>, Vec<Vec<u8>>) {
         if i + 1 == nwords && rng.chance(1, 3) {
             break;
         }
-        match rng.below(8) {
-            0 | 1 | 2 => inp.push(b' '),
+        match rng.below(10) {
+            // (carriage return and form feed separate words like blanks do; only a newline ends a line)
+            8 => inp.push(*rng.pick(&[b'\r', b'\x0c'])),
+            0 | 1 | 2 | 9 => inp.push(b' '),
             3 => inp.extend_from_slice(b" \n"), // trailing blank: the line continues
             4 => inp.extend_from_slice(b"\n\n"),
             5 => inp.push(b'\t'),
